@@ -74,7 +74,24 @@ def bridge_theorems(module):
     return [(n, a, b) for n, a, b, k in res if k == "theorem"], [(n, a, b) for n, a, b, k in res]
 
 
+def with_deps(modules):
+    """Modules plus the generated modules their Bridge files import (directly or through other Bridge files)."""
+    out, todo = [], list(modules)
+    while todo:
+        m = todo.pop(0)
+        if m in out:
+            continue
+        out.append(m)
+        bp = os.path.join(BRIDGE_DIR, f"{m}.lean")
+        if os.path.exists(bp):
+            for d in re.findall(r"^import\s+TexelVerif\.(?:Generated|Bridge)\.(\w+)", open(bp).read(), re.M):
+                if d not in out:
+                    todo.append(d)
+    return out
+
+
 def regenerate(ctx, modules, repo=None):
+    modules = with_deps(modules)
     t0 = time.time()
     repo = repo or vlib.REPO
     os.makedirs(CACHE, exist_ok=True)
